@@ -364,7 +364,16 @@ impl Opts {
     }
     /// Scales a case count by tier and --scale.
     pub fn n(&self, quick: u64, thorough: u64) -> u64 {
-        let base = if self.thorough { thorough } else { quick };
+        // Under Miri (about four orders of magnitude slower) the native
+        // thorough count is never used: the thorough tier runs four times the
+        // quick count and gets its depth from more shards and scheduler seeds.
+        let base = if cfg!(miri) {
+            if self.thorough { quick.saturating_mul(4) } else { quick }
+        } else if self.thorough {
+            thorough
+        } else {
+            quick
+        };
         ((base as f64 * self.scale).ceil() as u64).max(1)
     }
     /// Whether case index `c` belongs to this shard.
